@@ -24,6 +24,8 @@ import numpy as np
 from common import VERIF, qlit, qlist, zlit, dyadic, coqc_many, parse_evals, parse_zlist
 import c11_search as S
 import c11_forms as F
+import c11_source as SRC
+from common import coqc
 
 THEOREMS = ["C11_sart_returns_iterate_under_stopping_rule", "C11_csart_returns_iterate_under_stopping_rule",
             "C11_sart_step_is_documented_rule", "C11_csart_step_is_documented_rule",
@@ -34,7 +36,11 @@ THEOREMS = ["C11_sart_returns_iterate_under_stopping_rule", "C11_csart_returns_i
             "C11_stacked_system_is_tikhonov_objective", "C11_kkt_certificate_sufficient",
             "C11_normal_equations_certificate_sufficient", "C11_nnls_wrapper_returns_tikhonov_minimiser",
             "C11_nnls_output_certificate_sound", "C11_lstsq_output_certificate_sound",
-            "C11_svd_output_certificate_sound"]
+            "C11_svd_output_certificate_sound",
+            "C11_sart_sweep_scale_covariant", "C11_sart_inversion_scale_covariant", "C11_sart_sweep_respects_equal_iterates",
+            "C11_csart_beta_zero_is_sart", "C11_sart_exact_start_makes_two_sweeps", "C11_stop_replay_is_the_model_rule",
+            "C11_exact_certificates_give_exact_minimisers", "C11_lstsq_wrapper_returns_tikhonov_minimiser",
+            "C11_nnls_wrapper_error_and_norm_sign"]
 
 E1 = float(np.exp(-1))          # the constant the code uses for a missing initial guess
 
@@ -282,8 +288,9 @@ def run_sart_impl(inv, case, maxit=None, live=None):
     """returns ("ok", x, convs), ("zerodiv", None, None) or ("exception:<Type>: <text>", None, None).
     Fresh objects in the case's forms are built for every call (the implementation updates the initial guess
     in place) unless `live` objects are handed in (histories on the same objects)."""
-    _VARIANT[0] += 1
-    a = live if live is not None else F.presented_args(case, _VARIANT[0])
+    # the memory layout of the presented objects is fixed per case: NumPy rounds sums / dots differently for different
+    # strides, and the runs with max_iterations = k must reproduce the intermediate iterates of the full run bit for bit
+    a = live if live is not None else F.presented_args(case, case.setdefault("variant", 0))
     mi = case["maxit"] if maxit is None else maxit
     mi_obj = F.present_scalar(mi, case.get("forms", {}).get("maxit", "SPyInt"))
     constrained = case["kind"] == "csart"
@@ -331,7 +338,7 @@ def sart_history(inv, case, rng):
     weight: density > 0 -> 0, ray length -> 0; b -> 0) and then restored.  Every step becomes a derived case with the
     configuration current at that step: it is run again on freshly built objects (must agree bit for bit with the live
     result) and goes through the same Coq tie."""
-    live = F.presented_args(case, 0)
+    live = F.presented_args(case, case.setdefault("variant", 0))
     W0 = case["W"].copy()
     b0 = case["b"].copy()
     m, n = case["m"], case["n"]
@@ -447,7 +454,7 @@ def run(ctx):
         "(eps = 2^-30 x rounding-error scale of the gradient / objective); no theorem about the solvers' algorithms",
     ]
     ctx.rebuild()
-    ctx.proofs("Properties.C11", THEOREMS, extra_modules=("Model.C11_Check", "Proofs.C11_Check", "Model.C11_Forms"))
+    ctx.proofs("Properties.C11", THEOREMS, extra_modules=("Model.C11_Check", "Proofs.C11_Check", "Model.C11_Forms", "Model.C11_Round", "Proofs.C11_Round"))
     ctx.log("proofs checked")
 
     import cherab
@@ -456,6 +463,32 @@ def run(ctx):
     import scipy.optimize
     from cherab.tools import inversions as inv
     from cherab.tools.inversions import nnls as nnls_mod, lstsq as lstsq_mod, svd as svd_mod
+
+    # ---- regenerated from the current source / running system, tied by the kernel (coq/Gen/C11/*_tie.v) ----------
+    try:
+        dpath = ctx.write_gen("defaults_tie.v", SRC.defaults_tie_text())
+        okd, outd = coqc(dpath, timeout=600)
+    except SRC.TranslationError as ex:
+        okd, outd = False, "translator failed closed: %s" % ex
+    ctx.obligation("Gen tie defaults_tie.v: parameter order and defaults parsed from sart.pyx / nnls.py / lstsq.py / svd.py "
+                   "equal Model/C11_Forms.model_defaults", "tie", okd, outd)
+    if not okd:
+        ctx.violation("c11:defaults-tie", "parameter names / default values of the entry points in the source no longer equal the "
+                      "model's (documented) defaults: " + outd.strip()[-300:], {"tie": "coq/Gen/C11/defaults_tie.v"}, found=False)
+    ptxt, pterms = SRC.policy_tie_text(inv)
+    ppath = ctx.write_gen("policy_tie.v", ptxt)
+    okp, outp = coqc(ppath, timeout=900)
+    badp = []
+    if not okp:
+        vals = parse_evals(outp)
+        badp = [pterms[i] for i in parse_zlist(vals[0][:vals[0].index("]") + 1])] if (vals and "]" in vals[0]) else []
+    ctx.obligation("Gen tie policy_tie.v: %d probed (entry point, argument forms) combinations equal the policy functions of "
+                   "Model/C11_Forms.v (complete enumeration)" % len(pterms), "tie", okp, outp[-1500:] + " " + str(badp[:5]))
+    if not okp:
+        raised = [t for t in badp if not t.endswith("Accept")]
+        ctx.violation("c11:policy-tie", "accepted / rejected argument forms differ from the policy table: %s" % (badp[:4],),
+                      {"mismatches (check_*_forms <forms> <observed>)": badp[:40]}, found=bool(raised))
+    ctx.log("source ties done (%d policy combinations)" % len(pterms))
 
     rng = ctx.rng
     quick = ctx.quick
@@ -490,8 +523,8 @@ def run(ctx):
                 corpus_cases.append(c)
 
     # ---- SART cases ------------------------------------------------------------------------------
-    n_run = 32 if quick else 400
-    n_trace = 76 if quick else 2500
+    n_run = 28 if quick else 400
+    n_trace = 60 if quick else 2500
     sart_cases = [c for c in corpus_cases if c["kind"] in ("sart", "csart")]
     for i in range(n_run):
         sart_cases.append(gen_sart_case(rng, rng.choice(["int", "int", "dyadic"]), False, i % 2 == 1))
@@ -552,24 +585,34 @@ def run(ctx):
             defs.append("Definition %s : mat := %s." % (Ln, qmat(case["L"])))
         g = guess_lit(case["guess"])
         err = "true" if st == "zerodiv" else "false"
+        om = F.omitted_args(case)
+
+        def opt(name, field, lit):
+            return "(arg_or (%s dm) %s)" % (field, "None" if name in om else "(Some %s)" % lit)
+        l_maxit = opt("max_iterations", "default_max_iterations", "(%s)%%Z" % zlit(case["maxit"]))
+        l_relax = opt("relaxation", "default_relaxation", qlit(case["relax"]))
+        l_tol = opt("conv_tol", "default_conv_tol", qlit(case["tol"]))
+        l_beta = opt("beta_laplace", "default_beta_laplace", qlit(case["beta"])) if kind == "csart" else ""
+        for nm in om:
+            count("tags", "left_to_default_" + nm)
         if case["tie"] == "run" or st != "ok":
             ix = qlist(xs[-1].tolist()) if (st == "ok" and xs) else (qlist(x0.tolist()) if st == "ok" else "[]")
             ics = qlist(cs) if st == "ok" else "[]"
             if kind == "sart":
                 e = "check_sart_run e1 %d %s %s %s %s %s %s %s %s %s" % (
-                    n, Wn, bn, g, zlit(case["maxit"]), qlit(case["relax"]), qlit(case["tol"]), err, ix, ics)
+                    n, Wn, bn, g, l_maxit, l_relax, l_tol, err, ix, ics)
             else:
                 e = "check_csart_run e1 %d %s %s %s %s %s %s %s %s %s %s %s" % (
-                    n, Wn, Ln, bn, g, zlit(case["maxit"]), qlit(case["relax"]), qlit(case["beta"]), qlit(case["tol"]), err, ix, ics)
+                    n, Wn, Ln, bn, g, l_maxit, l_relax, l_beta, l_tol, err, ix, ics)
         else:
             xs_l = "[" + "; ".join(qlist(x.tolist()) for x in xs) + "]"
             x0_l = "(initial_solution e1 %d %s)" % (n, g)
             if kind == "sart":
                 e = "check_sart_trace %s %s %s %s %s %s %s %s" % (
-                    Wn, bn, zlit(case["maxit"]), qlit(case["relax"]), qlit(case["tol"]), x0_l, xs_l, qlist(cs))
+                    Wn, bn, l_maxit, l_relax, l_tol, x0_l, xs_l, qlist(cs))
             else:
                 e = "check_csart_trace %s %s %s %s %s %s %s %s %s %s" % (
-                    Wn, Ln, bn, zlit(case["maxit"]), qlit(case["relax"]), qlit(case["beta"]), qlit(case["tol"]), x0_l, xs_l, qlist(cs))
+                    Wn, Ln, bn, l_maxit, l_relax, l_beta, l_tol, x0_l, xs_l, qlist(cs))
         moved = st == "ok" and len(cs) > 0 and not np.array_equal(xs[-1], x0)
         if moved or st == "zerodiv" or "exact_solution_start" in case["tags"]:
             n_nontrivial += 1
@@ -578,6 +621,12 @@ def run(ctx):
                         "x": xs[-1].tolist() if (st == "ok" and xs) else None, "convs": cs,
                         "xs": [x.tolist() for x in xs] if st == "ok" else None}
         entries.append((e, case))
+        if st == "ok":
+            # EXACT: the stopping rule replayed in Coq on the implementation's own convergence values, the one rounded
+            # subtraction modelled by round53; ds = the differences as this machine computes them
+            ds = [abs(cs[k] - cs[k - 1]) for k in range(1, len(cs))]
+            entries.append(("check_stop_exact %s %s %s %s" % (l_maxit, l_tol, qlist(cs), qlist(ds)), dict(case, tie="stop_exact")))
+            count("tie", "stop_exact")
         if case.get("expect_live") is not None:
             lst, lx, lcs = case["expect_live"]
             fx = xs[-1] if (st == "ok" and xs) else (x0 if st == "ok" else None)
@@ -613,7 +662,7 @@ def run(ctx):
                     sart_cases.append(d)
 
     # ---- least-squares cases -------------------------------------------------------------------
-    n_lsq = 56 if quick else 1200
+    n_lsq = 48 if quick else 1200
     lsq_cases = [c for c in corpus_cases if c["kind"] in ("nnls", "lstsq", "svd")]
     for i in range(n_lsq):
         lsq_cases.append(gen_lsq_case(rng, rng.choice(["int", "dyadic", "float", "float"]), ["nnls", "lstsq", "nnls", "svd"][i % 4]))
@@ -649,8 +698,7 @@ def run(ctx):
     def call_lsq(case, recorder=None, live=None):
         """one call of the real entry point with fresh objects in the case's forms (or the given live objects);
         returns ("ok", result) or ("exception", exception)"""
-        _VARIANT[0] += 1
-        a = live if live is not None else F.presented_args(case, _VARIANT[0])
+        a = live if live is not None else F.presented_args(case, case.setdefault("variant", 0))
         kind = case["kind"]
         target = {"nnls": (scipy.optimize, "nnls"), "lstsq": (np.linalg, "lstsq")}.get(kind)
         orig = getattr(*target) if (recorder and target) else None
@@ -697,6 +745,8 @@ def run(ctx):
             Lopt = "(Some L%d)" % ci
         W, b = case["W"], case["b"]
         vmax_zero = not (np.concatenate([b, np.zeros(n)]).max() != 0)
+        l_alpha = ("(arg_or (default_alpha dm) %s)" % ("None" if "alpha" in F.omitted_args(case) else "(Some %s)" % qlit(case["alpha"]))
+                   if kind != "svd" else "")
         fm = case.get("forms", {})
         # single precision inside the implementation: scipy's pinv works in float32 for float32 / uint8 / bool matrices;
         # NumPy forms alpha * L in float32 for a float32 Tikhonov matrix.  Tolerances are then those of single precision.
@@ -751,11 +801,11 @@ def run(ctx):
                 continue
             if kind == "nnls":
                 e = "check_nnls_wrapper %s %d %s %s %s %s %s %s %s %s %s %s" % (
-                    single, n, Wn, bn, qlit(case["alpha"]), Lopt, qmat(rec.args[0]), qlist(rec.args[1].tolist()),
+                    single, n, Wn, bn, l_alpha, Lopt, qmat(rec.args[0]), qlist(rec.args[1].tolist()),
                     qlist(rec.x.tolist()), qlit(rec.r), qlist(np.asarray(xr, dtype=float).tolist()), qlit(float(rr)))
             else:
                 e = "check_lstsq_wrapper %s %d %s %s %s %s %s %s %s %s" % (
-                    single, n, Wn, bn, qlit(case["alpha"]), Lopt, qmat(rec.args[0]), qlist(rec.args[1].tolist()),
+                    single, n, Wn, bn, l_alpha, Lopt, qmat(rec.args[0]), qlist(rec.args[1].tolist()),
                     "(Qeq_bool_list %s %s)" % (qlist(rec.x.tolist()), qlist(np.asarray(xr, dtype=float).tolist())),
                     "(Qeq_bool_list %s %s)" % (qlist([rec.r]), qlist(np.asarray(rr, dtype=float).tolist())))
             entries.append((e, dict(case, tie="wrapper")))
@@ -768,7 +818,7 @@ def run(ctx):
                              meta_of(case, {"impl_x": np.asarray(x).tolist(), "impl_rnorm": float(rn)})))
                 continue
             case["impl"] = {"status": "ok", "x": np.asarray(x, dtype=float).tolist(), "rnorm": float(rn)}
-            e = "check_nnls_out %s %d %s %s %s %s %s %s" % (single, n, Wn, bn, qlit(case["alpha"]), Lopt,
+            e = "check_nnls_out %s %d %s %s %s %s %s %s" % (single, n, Wn, bn, l_alpha, Lopt,
                                                          qlist(np.asarray(x, dtype=float).tolist()), qlit(float(rn)))
         elif kind == "lstsq":
             x, res = out
@@ -780,7 +830,7 @@ def run(ctx):
             case["impl"] = {"status": "ok", "x": np.asarray(x, dtype=float).tolist(), "residuals": res.tolist()}
             if res.size == 0:
                 count("tags", "lstsq_no_residual_reported")
-            e = "check_lstsq_out %s %d %s %s %s %s %s %s" % (single, n, Wn, bn, qlit(case["alpha"]), Lopt,
+            e = "check_lstsq_out %s %d %s %s %s %s %s %s" % (single, n, Wn, bn, l_alpha, Lopt,
                                                           qlist(np.asarray(x, dtype=float).tolist()), qlist(res.tolist()))
         else:
             x = out
@@ -800,7 +850,7 @@ def run(ctx):
                 viol.append(("c11:%s:history" % kind, "%s on re-used live objects (b changed in place between calls) differs from the "
                              "same call on freshly built objects" % kind, meta_of(case, {"live": str(lout)[:400]})))
         if not case.get("derived") and "corpus" not in case["tags"] and rng.random() < 0.3 and m > 0:
-            live = F.presented_args(case, 0)
+            live = F.presented_args(case, case.setdefault("variant", 0))
             with warnings.catch_warnings():
                 warnings.simplefilter("ignore")
                 st1, out1 = call_lsq(case, live=live)
@@ -828,6 +878,8 @@ def run(ctx):
     def cost(case):
         if case.get("tie") == "forms":
             return 1
+        if case.get("tie") == "stop_exact":
+            return 5 + 20 * ((case.get("impl") or {}).get("sweeps") or 0)
         sweeps = ((case.get("impl") or {}).get("sweeps") or 0) if case["kind"] in ("sart", "csart") else 3
         return 1 + case["m"] * case["n"] * (1 + sweeps) * (3 if case["mode"] == "float" else 1) * (3 if "scaled" in case["tags"] else 1)
     n_shards = 16 if quick else max(16, len(entries) // 25)
@@ -844,7 +896,7 @@ def run(ctx):
         for e, _ in sh:
             words.update(re.findall(r"\b[WbL]\d+\b", e))
         used = [d for d in defs if any(ln.split()[1] in words for ln in d.split("\n"))]
-        txt = ("Require Import Cherab.Common.Qx Cherab.Model.C11_Sart Cherab.Model.C11_Kkt Cherab.Model.C11_Check Cherab.Model.C11_Forms.\n"
+        txt = ("Require Import Cherab.Common.Qx Cherab.Model.C11_Sart Cherab.Model.C11_Kkt Cherab.Model.C11_Check Cherab.Model.C11_Forms Cherab.Model.C11_Round.\n"
                "Open Scope Q_scope.\nDefinition e1 : Q := %s.\n" % qlit(E1) + "\n".join(used)
                + "\nDefinition results : list Z := [\n  " + ";\n  ".join(e for e, _ in sh) + "].\n"
                "Eval vm_compute in results.\n")
@@ -900,6 +952,17 @@ def run(ctx):
         "nontrivial_cases": n_nontrivial,
         "ambiguous_stop_decisions": ambiguous,
         "search_checks": n_search,
+        "compared_in_coq": {
+            "exact (no tolerance)": [
+                "stopping rule: replayed on the implementation's own convergence values with the binary64 rounding model round53 "
+                "for the one subtraction; the model's differences must equal the machine's bit for bit (check_stop_exact)",
+                "number of sweeps, error kind (ZeroDivisionError / ValueError / none), accepted-or-rejected and exception kind per "
+                "argument form (per case and as a complete probed table, policy_tie.v)",
+                "parameter order and default values parsed from the source (defaults_tie.v); arguments left out of a call are "
+                "evaluated with the model's default table",
+                "what the wrappers pass back from the solver stub (solution exactly, norm x vmax within 2^-50)"],
+            "under tolerance": ["every iterate of every sweep, every convergence value, the system handed to the solver, the "
+                                "certificates of the real outputs (see tolerance)"]},
         "tolerance": {"sart_sweep": "2^-40 x magnitude of the terms of the cell update (exact rational model vs double)",
                       "sart_whole_run": "2^-30 x max|x|; convergence values 2^-30 x (1+|c|)",
                       "stop_decision_margin": "2^-30 x (1 + |c_k| + |c_(k-1)|) on | |c_k - c_(k-1)| - tol | (ambiguous cases are decided exactly by replaying the rule on the implementation's own convergence values)",
